@@ -9,6 +9,7 @@ import (
 	"math/big"
 	"math/rand"
 	"net"
+	"path/filepath"
 	"sync"
 	"time"
 
@@ -392,7 +393,35 @@ func vRunC13(c *vCase) {
 		c.Cov("records_with_own_shape", 1)
 	}
 	rec := &DataRecord{data: data, presamples: npre, signed: signed, channelIndex: 0}
-	dsp.AnalyzeData([]*DataRecord{rec})
+	// the record is analysed alone, or as one of a batch (a block with several triggers): nothing of the other records of
+	// the call may leak into its values
+	batch := []*DataRecord{rec}
+	if k := r.Intn(4); k > 0 {
+		pos := r.Intn(k + 1)
+		batch = nil
+		for i := 0; i <= k; i++ {
+			if i == pos {
+				batch = append(batch, rec)
+				continue
+			}
+			d := make([]RawType, n)
+			for j := range d {
+				d[j] = RawType(r.Intn(65536))
+			}
+			batch = append(batch, &DataRecord{data: d, presamples: npre, signed: signed, channelIndex: 0})
+		}
+		c.Cov("records_analysed_in_a_batch", 1)
+	}
+	if nbases > 0 && vChance(r, 0.3) {
+		// an OFF file is being written for this channel and the run is paused: the values (they go to the summary
+		// messages whether or not files are written) must not depend on that
+		dsp.DataPublisher.SetOFF(0, dsp.NPresamples, dsp.NSamples, 1, 1e-5, time.Unix(vT0Unix, 0), 1, 1, 1, 1, 0, 0, 0,
+			filepath.Join(c.Dir, "c13.off"), "Verif", "chan0", 0, P, B, "verif", Pixel{})
+		dsp.DataPublisher.WritingPaused = vChance(r, 0.7)
+		defer dsp.DataPublisher.RemoveOFF()
+		c.Cov("records_analysed_with_off_writer", 1)
+	}
+	dsp.AnalyzeData(batch)
 
 	d := make([]int64, n)
 	maxabs := 1.0
